@@ -83,6 +83,10 @@ def cases(tier, seed):
             for sc in SCALES[tier] + SCAN_SCALES:
                 out.append({"id": "scan:%s:s=%r" % (st, sc), "kind": "scan",
                             "st": st, "s": sc, "ms_xsec": False})
+        if st in ("mie", "mielens", "ms2", "tm-spheroid", "lens-mie",
+                  "layered", "ms1", "tm-sphere"):
+            out.append({"id": "medium-loop:%s" % st, "kind": "medialoop",
+                        "st": st, "ms_xsec": False, "loop": MEDIA_LOOP})
         for nm in NMEDS:
             out.append({"id": "medium:%s:n_m=%r" % (st, nm), "kind": "medium",
                         "st": st, "nm": nm, "ms_xsec":
@@ -92,6 +96,9 @@ def cases(tier, seed):
 
 # units in which the particle's size is a small number (metres, kilometres):
 # an absolute threshold in a comparison of two sizes shows there
+MEDIA_LOOP = [(1.33, H.WL), (1.5, H.WL), (1.0003, H.WL), (1.5, H.WL),
+              (1.33, H.WL), (1.33, H.WL * 0.8), (1.5, H.WL * 0.8),
+              (1.33, H.WL)]
 SCAN_SCALES = [2.0 ** -20, 1e-6, 2.0 ** -30, 1e-9]
 SCAN_STS = ["mie", "mielens", "abmielens", "lens-mie", "tm-sphere", "ms1",
             "layered"]
@@ -356,6 +363,37 @@ def _run_dirs(case, ck):
                   else fp_values(b))
 
 
+def _medium_compare(ck, st, nm, wl, ms_xsec):
+    # (n, n_m, L) -> (n/n_m, 1, L/n_m)
+    base = _quantities(st, 1.0, DETK[0], nmed=nm, wl=wl,
+                       ms_xsec=ms_xsec)
+    got = _quantities(st, 1.0, DETK[0], nmed=1.0, wl=wl / nm, nscale=nm,
+                      ms_xsec=ms_xsec)
+    fps = []
+    for name in base:
+        b, g = base[name], got[name]
+        if isinstance(b, tuple) or isinstance(g, tuple):
+            ck.true("same-acceptance:" + name,
+                    isinstance(b, tuple) and isinstance(g, tuple),
+                    "%s medium %r: %s accepted only in one form" %
+                    (st, nm, name))
+            continue
+        ck.trans += 2
+        if name == "xsec":
+            absol = abs(b[2])
+            e = max(abs(g[0] - b[0]) / abs(b[0]), abs(g[2] - b[2]) / absol,
+                    abs(g[1] - b[1]) / absol, abs(g[3] - b[3]))
+        else:
+            sc = float(np.max(np.abs(b))) or 1.0
+            e = float(np.max(np.abs(g - b))) / sc
+        ck.metric("medium:" + name, e)
+        ck.true("medium-renorm:" + name, e <= 1e-9,
+                "%s: %s changes by %.2e when (n, n_m, L) -> (n/n_m, 1, "
+                "L/n_m) with n_m=%r" % (st, name, e, nm))
+        fps.append(fp_values(g))
+    return fps
+
+
 def run_case(case):
     ck = Checker()
     st = case["st"]
@@ -398,32 +436,13 @@ def run_case(case):
                 (st, {k: v for k, v in base.items()
                       if isinstance(v, tuple)}))
         return ck.result(fp=digest(*fps, s))
-    nm = case["nm"]
-    # (n, n_m, L) -> (n/n_m, 1, L/n_m)
-    base = _quantities(st, 1.0, DETK[0], nmed=nm, wl=H.WL,
-                       ms_xsec=case["ms_xsec"])
-    got = _quantities(st, 1.0, DETK[0], nmed=1.0, wl=H.WL / nm, nscale=nm,
-                      ms_xsec=case["ms_xsec"])
-    fps = []
-    for name in base:
-        b, g = base[name], got[name]
-        if isinstance(b, tuple) or isinstance(g, tuple):
-            ck.true("same-acceptance:" + name,
-                    isinstance(b, tuple) and isinstance(g, tuple),
-                    "%s medium %r: %s accepted only in one form" %
-                    (st, nm, name))
-            continue
-        ck.trans += 2
-        if name == "xsec":
-            absol = abs(b[2])
-            e = max(abs(g[0] - b[0]) / abs(b[0]), abs(g[2] - b[2]) / absol,
-                    abs(g[1] - b[1]) / absol, abs(g[3] - b[3]))
-        else:
-            sc = float(np.max(np.abs(b))) or 1.0
-            e = float(np.max(np.abs(g - b))) / sc
-        ck.metric("medium:" + name, e)
-        ck.true("medium-renorm:" + name, e <= 1e-9,
-                "%s: %s changes by %.2e when (n, n_m, L) -> (n/n_m, 1, "
-                "L/n_m) with n_m=%r" % (st, name, e, nm))
-        fps.append(fp_values(g))
-    return ck.result(fp=digest(*fps, nm))
+    if case["kind"] == "medialoop":
+        # several media at one vacuum wavelength, then several wavelengths in
+        # one medium, one after the other in one interpreter
+        fps = []
+        for nm, wl in case["loop"]:
+            fps += _medium_compare(ck, st, nm, wl, False)
+        return ck.result(fp=digest(*fps))
+    fps = _medium_compare(ck, st, case["nm"], H.WL, case["ms_xsec"])
+    return ck.result(fp=digest(*fps, case["nm"]))
+
